@@ -215,6 +215,7 @@ const (
 	CrashLoseAll = iota // only durable content survives
 	CrashKeepAll        // every issued write survives (process crash)
 	CrashSubset         // tape-chosen subset of volatile writes, torn at sector boundaries
+	CrashSubsetAtomic   // tape-chosen subset of volatile writes, each write atomic
 )
 
 // CrashImage builds a post-crash image. For CrashSubset each volatile write
@@ -232,6 +233,16 @@ func (sn *DiskSnapshot) CrashImage(mode int, t *Tape, stats map[string]int) []by
 		return append([]byte{}, sn.Visible...)
 	}
 	img := append([]byte{}, sn.Durable...)
+	if mode == CrashSubsetAtomic {
+		for _, w := range sn.Log {
+			if t.Choose(2) == 0 {
+				copy(img[w.Off:], w.Data)
+			} else {
+				stats["fault_crash_lost_writes"]++
+			}
+		}
+		return img
+	}
 	for _, w := range sn.Log {
 		switch t.Choose(3) {
 		case 0: // kept
